@@ -24,6 +24,8 @@ func runC10(c *Ctx) {
 		c.Unresolved("C10.anchors", "ctree.Tree.leafBranch / ctree.Tree.mu")
 		return
 	}
+	ctreeExposure(c, "C10.exposure")
+	c.Borrow("C09", map[string]string{"C09.add-atomic": "C10.test-and-store"}, "an add tests the node and stores into it under one write lock: split into two critical sections, a concurrent add can turn the node into a branch in between and the store then destroys acknowledged children")
 	c.Rule("C10.guarded", "every read of x.leafBranch holds x.mu (R or W) and every write (store, map insert/delete on the branch map) holds x.mu (W), x being the same node; requirements of unexported helpers are discharged at every call site; no exported entry point reaches guarded state unlocked")
 	c.Rule("C10.no-upgrade", "no Lock() on a mutex whose read lock is held by the same activation, no acquisition of a lock the caller already holds (directly or through a callee)")
 	c.Rule("C10.released", "every lock acquired in an activation is released on every path to a return")
